@@ -312,6 +312,7 @@ Inductive rep_case :=
        (calls : option (list rcall))       (* observed reporter calls, oldest first (None: not observable) *)
        (hfinal : list (option error * option error))  (* per handler: Error(), ReporterError() afterwards *)
 | CE2E (abort : nat)                       (* Compiler.Compile with a reporter aborting at call `abort` (0: never) *)
+       (deflt : bool)                      (* or one that returns the reported error itself, like the default reporter *)
        (errcalls warncalls : nat)          (* reporter calls seen *)
        (final : nat).                      (* Compile error: 0 nil, 1 the abort error, 2 ErrInvalidSource, 3 another error *)
 
@@ -329,25 +330,42 @@ Definition ops_chk parents abort deflt ps (sq : bool) sched res calls hfinal : b
   list_eqb (fun a b => oerror_eqb (fst a) (fst b) && oerror_eqb (snd a) (snd b))
            (map (fun h => (error_result (hs s h), herr (hs s h))) (seq 0 nh)) hfinal.
 
-(* end to end: the task of a file reports through its own sub-handler of the root; Compile returns the
-   root handler's Error() when that is not nil and otherwise the first task error (an error that was
-   never given to the reporter, class 3).  The stages are not modelled: the observed numbers of calls
-   are replayed on the handler model and the model must reproduce the number of calls that got through
-   and the identity of the final error. *)
-Definition e2e_chk (abort errcalls warncalls final : nat) : bool :=
-  let p := repeat (OWarn 1 0) warncalls ++ repeat (OErr 1 true 0) errcalls in
-  let cfg := cfg_of [0] abort false [p] in
-  let s := run_order cfg 10 (repeat 0 (length p)) (init cfg) in
-  finished (threads s 0) && Nat.eqb (ncalls s) errcalls &&
+(* end to end.  Compiler.Compile creates the root handler, gives every file's task its own sub-handler and,
+   when all requested files are done, returns the root handler's Error() when that is not nil and otherwise
+   the first error among the requested files' tasks (a failure that was never given to the reporter: a file
+   the resolver could not produce, a resolver panic). *)
+Fixpoint first_some {A : Type} (l : list (option A)) : option A :=
+  match l with
+  | [] => None
+  | Some a :: _ => Some a
+  | None :: r => first_some r
+  end.
+
+Definition compile_final (s : state) (task_errs : list (option error)) : option error :=
   match error_result (hs s 0) with
-  | None => Nat.eqb final 0 || Nat.eqb final 3
+  | Some e => Some e
+  | None => first_some task_errs
+  end.
+
+(* The stages are not modelled: the observed numbers of calls are replayed on the handler model and the
+   model must reproduce the number of calls that got through and the identity of the final error (class 3,
+   another error, is possible only as a task error). deflt: the reporter returns the reported error itself *)
+Definition e2e_chk (abort : nat) (deflt : bool) (errcalls warncalls final : nat) : bool :=
+  let p := repeat (OWarn 1 0) warncalls ++ repeat (OErr 1 true 0) errcalls in
+  let cfg := cfg_of [0] abort deflt [p] in
+  let s := run_order cfg 10 (repeat 0 (length p)) (init cfg) in
+  let te := if Nat.eqb final 3 then Some (EPlain 0) else None in
+  finished (threads s 0) && Nat.eqb (ncalls s) errcalls &&
+  match compile_final s [None; te] with
+  | None => Nat.eqb final 0
   | Some EInvalidSource => Nat.eqb final 2
-  | Some (ERep _) => Nat.eqb final 1
-  | Some _ => false
+  | Some (ERep _) => negb deflt && Nat.eqb final 1
+  | Some (EPos _) => deflt && Nat.eqb final 1
+  | Some (EPlain _) => Nat.eqb final 3
   end.
 
 Definition rep_chk (c : rep_case) : bool :=
   match c with
   | COps parents abort deflt ps sq sched res calls hfinal => ops_chk parents abort deflt ps sq sched res calls hfinal
-  | CE2E abort e w f => e2e_chk abort e w f
+  | CE2E abort d e w f => e2e_chk abort d e w f
   end.
